@@ -501,6 +501,7 @@ def run(ctx, rep):
         import expr as ex
         fw = F.fn("simplicity::jet::type_name::TypeName::to_bit_width")
         if fw is not None:
+            fw = F.inlined(fw, ("pop", "push", "max"))
             Tw = Terms(fw)
             Tw.site_names = {"pop"}
             forms = set()
@@ -529,6 +530,7 @@ def run(ctx, rep):
             f = F.fn("simplicity::jet::type_name::TypeName::" + nm)
             if f is None:
                 continue
+            f = F.inlined(f, ("pop", "push", "sum", "product"))   # a private helper popping both operands is spliced in
             Tf = Terms(f)
             Tf.site_names = {"pop"}
             for cs in f.calls():
